@@ -121,3 +121,17 @@ Theorem C03_buffer_ordered : forall env s before after a b,
   sorted_start (fetch env (Buf s before after) a b false).
 Proof. exact buffer_fetch_sorted. Qed.
 Print Assumptions C03_buffer_ordered.
+
+(* ---- tie C: the code that ORDERS results, as the source text has it (regenerated on every run): the k-way
+   merge of Union.fetch with its direction-dependent keys, MemoryTimeline.fetch (the merge of the stored
+   intervals and every series, both directions), the sort key of the store, and the reverse pager of a
+   recurring pattern ---- *)
+From CG Require Import Gen.Source Proofs.GenEq9 Proofs.GenEq_mem Proofs.GenEq2.
+Example C03_source_union_fetch_is_model : _ := g_union_fetch_eq.
+Print Assumptions C03_source_union_fetch_is_model.
+Example C03_source_memory_fetch_is_model : _ := g_mem_fetch_eq.
+Print Assumptions C03_source_memory_fetch_is_model.
+Example C03_source_sort_key_orders : _ := g_interval_sort_key_orders.
+Print Assumptions C03_source_sort_key_orders.
+Example C03_source_recurring_reverse_is_model : _ := g_recur_fetch_reverse_eq.
+Print Assumptions C03_source_recurring_reverse_is_model.
